@@ -364,6 +364,27 @@ async fn compio_line(st: &mut CState, dir: &Path, w: &[&str]) -> Obs {
         return obs("unsupported");
     }
     match w {
+        ["dtouch", p] => res_obs(compio_fs::write(tpath(dir, p), Vec::<u8>::new()).await.0),
+        ["dmkdir", p] => res_obs(compio_fs::create_dir(tpath(dir, p)).await),
+        ["dmkdirall", p] => res_obs(compio_fs::create_dir_all(tpath(dir, p)).await),
+        ["dbuild", rec, mode, p] => {
+            use std::os::unix::fs::DirBuilderExt;
+            let Ok(mode) = u32::from_str_radix(mode, 8) else { return obs("bad-op") };
+            if *rec != "0" && *rec != "1" {
+                return obs("bad-op");
+            }
+            let mut b = compio_fs::DirBuilder::new();
+            b.recursive(*rec == "1").mode(mode);
+            res_obs(b.create(tpath(dir, p)).await)
+        }
+        ["drmdir", p] => res_obs(compio_fs::remove_dir(tpath(dir, p)).await),
+        ["drm", p] => res_obs(compio_fs::remove_file(tpath(dir, p)).await),
+        ["drename", a, b] => res_obs(compio_fs::rename(tpath(dir, a), tpath(dir, b)).await),
+        ["dlink", a, b] => res_obs(compio_fs::hard_link(tpath(dir, a), tpath(dir, b)).await),
+        ["dsymlink", t, p] => res_obs(compio_fs::symlink(tpath(dir, t), tpath(dir, p)).await),
+        ["dstat", p] => kind_obs(compio_fs::metadata(tpath(dir, p)).await.map(|m| (m.is_dir(), m.is_symlink()))),
+        ["dlstat", p] => kind_obs(compio_fs::symlink_metadata(tpath(dir, p)).await.map(|m| (m.is_dir(), m.is_symlink()))),
+        ["dtree"] => tree_obs(dir),
         ["hread", h, pos, cap] => {
             let (Some(h), Some(pos), Some(cap)) = (num(h), num(pos), huge_cap(cap)) else { return obs("bad-op") };
             let Some(f) = st.files.get(&h) else { return obs("nohandle") };
@@ -798,6 +819,55 @@ fn huge_cap(s: &str) -> Option<usize> {
     if c > (1 << 40) { None } else { Some(c) }
 }
 
+/// the tree of the directory-utility operations lives below `T/`
+fn tpath(dir: &Path, p: &str) -> PathBuf {
+    let mut out = dir.join("T");
+    for c in p.split('/').filter(|c| c.len() != 0) {
+        out.push(c);
+    }
+    out
+}
+
+/// sorted listing `path:kind` of everything below `T/` (symlinks not followed); the comparable part also has
+/// the permission bits of directories
+fn tree_obs(dir: &Path) -> Obs {
+    fn walk(root: &Path, rel: &str, text: &mut Vec<String>, cmp: &mut Vec<String>) {
+        let here = if rel.is_empty() { root.to_path_buf() } else { root.join(rel) };
+        let Ok(rd) = std::fs::read_dir(&here) else { return };
+        for e in rd.flatten() {
+            let name = e.file_name().to_string_lossy().into_owned();
+            let r = if rel.is_empty() { name } else { format!("{rel}/{name}") };
+            let Ok(m) = std::fs::symlink_metadata(root.join(&r)) else { continue };
+            let k = if m.file_type().is_symlink() {
+                "l"
+            } else if m.is_dir() {
+                "d"
+            } else {
+                "f"
+            };
+            text.push(format!("{r}:{k}"));
+            cmp.push(if k == "d" { format!("{r}:{k}:{:o}", m.mode() & 0o7777) } else { format!("{r}:{k}:{}", m.nlink()) });
+            if k == "d" {
+                walk(root, &r, text, cmp);
+            }
+        }
+    }
+    let (mut text, mut cmp) = (vec![], vec![]);
+    walk(&dir.join("T"), "", &mut text, &mut cmp);
+    text.sort();
+    cmp.sort();
+    Obs { text: format!("ok {}", join_or(text)), cmp: format!("ok {}", join_or(cmp)), unrecorded: None, shrunk: None }
+}
+
+fn kind_obs(m: io::Result<(bool, bool)>) -> Obs {
+    match m {
+        Ok((true, _)) => obs("ok dir"),
+        Ok((_, true)) => obs("ok symlink"),
+        Ok(_) => obs("ok file"),
+        Err(e) => err_obs(&e),
+    }
+}
+
 fn is_fifo_path(p: &Path) -> bool {
     use std::os::unix::fs::FileTypeExt;
     std::fs::metadata(p).map(|m| m.file_type().is_fifo()).unwrap_or(false)
@@ -834,7 +904,7 @@ fn meta_obs(is_dir: bool, is_file: bool, is_symlink: bool, len: u64, mode: u32, 
 
 fn run_compio(rt: &Runtime, dir: &Path, lines: &[String]) -> Vec<Obs> {
     let _ = std::fs::remove_dir_all(dir);
-    std::fs::create_dir_all(dir).expect("mkdir");
+    std::fs::create_dir_all(dir.join("T")).expect("mkdir");
     let out = rt.block_on(async {
         let mut st = CState::default();
         let mut out = vec![];
@@ -939,6 +1009,27 @@ fn os_line(st: &mut OState, dir: &Path, w: &[&str]) -> Obs {
         Err(e) => err_obs(&e),
     };
     match w {
+        ["dtouch", p] => res_obs(std::fs::write(tpath(dir, p), b"")),
+        ["dmkdir", p] => res_obs(std::fs::create_dir(tpath(dir, p))),
+        ["dmkdirall", p] => res_obs(std::fs::create_dir_all(tpath(dir, p))),
+        ["dbuild", rec, mode, p] => {
+            use std::os::unix::fs::DirBuilderExt;
+            let Ok(mode) = u32::from_str_radix(mode, 8) else { return obs("bad-op") };
+            if *rec != "0" && *rec != "1" {
+                return obs("bad-op");
+            }
+            let mut b = std::fs::DirBuilder::new();
+            b.recursive(*rec == "1").mode(mode);
+            res_obs(b.create(tpath(dir, p)))
+        }
+        ["drmdir", p] => res_obs(std::fs::remove_dir(tpath(dir, p))),
+        ["drm", p] => res_obs(std::fs::remove_file(tpath(dir, p))),
+        ["drename", a, b] => res_obs(std::fs::rename(tpath(dir, a), tpath(dir, b))),
+        ["dlink", a, b] => res_obs(std::fs::hard_link(tpath(dir, a), tpath(dir, b))),
+        ["dsymlink", t, p] => res_obs(std::os::unix::fs::symlink(tpath(dir, t), tpath(dir, p))),
+        ["dstat", p] => kind_obs(std::fs::metadata(tpath(dir, p)).map(|m| (m.is_dir(), m.file_type().is_symlink()))),
+        ["dlstat", p] => kind_obs(std::fs::symlink_metadata(tpath(dir, p)).map(|m| (m.is_dir(), m.file_type().is_symlink()))),
+        ["dtree"] => tree_obs(dir),
         ["hread", h, pos, cap] => {
             let (Some(h), Some(pos), Some(cap)) = (num(h), num(pos), huge_cap(cap)) else { return obs("bad-op") };
             let Some(f) = st.files.get(&h) else { return obs("nohandle") };
@@ -1194,7 +1285,7 @@ fn os_line(st: &mut OState, dir: &Path, w: &[&str]) -> Obs {
 
 fn run_os(dir: &Path, lines: &[String]) -> Vec<Obs> {
     let _ = std::fs::remove_dir_all(dir);
-    std::fs::create_dir_all(dir).expect("mkdir");
+    std::fs::create_dir_all(dir.join("T")).expect("mkdir");
     let mut st = OState::default();
     let out = lines
         .iter()
@@ -1520,6 +1611,45 @@ fn gen_huge_case(rng: &mut Rng) -> Vec<String> {
     l
 }
 
+/// the namespace every directory-utility case starts from: a regular file, a directory, a symlink to each,
+/// a dangling symlink, a symlink loop; `miss` is missing
+const TREE_SETUP: [&str; 7] = ["dtouch f", "dmkdir d", "dmkdir d/sub", "dsymlink f lf", "dsymlink d ld", "dsymlink nowhere dang", "dsymlink loop loop"];
+const TREE_TOPS: [&str; 7] = ["f", "d", "lf", "ld", "dang", "miss", "loop"];
+
+fn gen_tree_path(rng: &mut Rng) -> String {
+    let top = *rng.pick(&TREE_TOPS);
+    match rng.below(6) {
+        0 | 1 => top.to_string(),
+        2 | 3 => format!("{top}/{}", rng.pick(&["x", "sub", "y"])),
+        4 => format!("{top}/{}/{}", rng.pick(&["x", "sub"]), rng.pick(&["y", "z"])),
+        _ => format!("d/sub/{}", rng.pick(&["x", "y"])),
+    }
+}
+
+fn gen_tree_case(rng: &mut Rng) -> Vec<String> {
+    let mut l: Vec<String> = TREE_SETUP.iter().map(|s| s.to_string()).collect();
+    for _ in 0..rng.range(4, 10) {
+        let a = gen_tree_path(rng);
+        let b = gen_tree_path(rng);
+        match rng.below(20) {
+            0..=3 => l.push(format!("dmkdirall {a}")),
+            4 | 5 => l.push(format!("dbuild 1 {} {a}", rng.pick(&["777", "755", "700", "750"]))),
+            6 => l.push(format!("dbuild 0 {} {a}", rng.pick(&["777", "755", "700"]))),
+            7 | 8 => l.push(format!("dmkdir {a}")),
+            9 => l.push(format!("drmdir {a}")),
+            10 => l.push(format!("drm {a}")),
+            11 | 12 => l.push(format!("drename {a} {b}")),
+            13 => l.push(format!("dlink {a} {b}")),
+            14 => l.push(format!("dsymlink {a} {b}")),
+            15 => l.push(format!("dtouch {a}")),
+            16 | 17 => l.push(format!("dstat {a}")),
+            _ => l.push(format!("dlstat {a}")),
+        }
+    }
+    l.push("dtree".into());
+    l
+}
+
 fn gen_fifo_case(rng: &mut Rng) -> Vec<String> {
     let mut l = vec!["mkfifo p".to_string()];
     let mut name = "p";
@@ -1716,6 +1846,25 @@ fn generate(tier: &str, rng: &mut Rng) -> Vec<Case> {
             ],
         );
     }
+    // create_dir_all / DirBuilder / create_dir on every kind of last component and below each of them
+    for top in TREE_TOPS {
+        for suffix in ["", "/x", "/x/y", "/sub"] {
+            for (k, op) in [("all", "dmkdirall"), ("one", "dmkdir"), ("rec", "dbuild 1 750"), ("nonrec", "dbuild 0 750")] {
+                if tier != "thorough" && (k == "nonrec" || (k == "one" && suffix == "/x/y")) {
+                    continue;
+                }
+                let mut l: Vec<String> = TREE_SETUP.iter().map(|s| s.to_string()).collect();
+                l.push(format!("{op} {top}{suffix}"));
+                l.push(format!("dstat {top}{suffix}"));
+                l.push(format!("dlstat {top}{suffix}"));
+                l.push("dtree".into());
+                push(format!("tree/{k}/{top}{}", suffix.replace('/', "_")), l);
+            }
+        }
+    }
+    for i in 0..120 * scale {
+        push(format!("tree-rand/{i}"), gen_tree_case(rng));
+    }
     for i in 0..6 * scale {
         push(format!("huge-rand/{i}"), gen_huge_case(rng));
     }
@@ -1838,6 +1987,10 @@ fn main() {
             let zero_read_dir = op == "readat"
                 && words.get(3).and_then(|b| parse_rbuf(b)).map(|s| s.wf() && s.window().1 == 0).unwrap_or(false)
                 && o[i].text == "err 21";
+            let dir_util = matches!(
+                op,
+                "dtouch" | "dmkdir" | "dmkdirall" | "dbuild" | "drmdir" | "drm" | "drename" | "dlink" | "dsymlink" | "dstat" | "dlstat" | "dtree"
+            );
             let known = if fseq {
                 Some("C08a:asyncfd-seq-regular-file")
             } else if minus_one {
@@ -1852,7 +2005,10 @@ fn main() {
             for (drv, x) in [("io_uring", &a[i]), ("polling", &b[i])] {
                 if x.cmp != o[i].cmp {
                     bad = true;
-                    ex.fail(sig("C08:os-divergence"), format!("line {i} `{line}` driver={drv}: compio `{}` but the OS `{}`", x.cmp, o[i].cmp));
+                    ex.fail(
+                        sig(if dir_util { "C08:dir-util-differs" } else { "C08:os-divergence" }),
+                        format!("line {i} `{line}` driver={drv}: compio `{}` but the OS `{}`", x.cmp, o[i].cmp),
+                    );
                 }
                 if let Some(d) = &x.shrunk {
                     ex.fail("C08:read-shrinks-buffer", format!("line {i} `{line}` driver={drv}: {d}"));
